@@ -2,6 +2,7 @@ import RreModel.Proto
 import RreModel.C09.Spec
 import RreModel.C09.Candidates
 import RreModel.C09.Ext
+import RreModel.C09.Hist
 /-
 Driver for C09 / C10-B.  Grammar: see harness/src/bin/c09.rs.
   obs := `<provable 1|0|err> <facts after> <undo depth after> <#solutions>`
@@ -15,6 +16,13 @@ Driver for C09 / C10-B.  Grammar: see harness/src/bin/c09.rs.
            rule set (forward closure, completeness) is the ENABLED rules, the model treats a disabled candidate as a no-op
   drv_c09 oracle3: the same with clause (iii) evaluated FIRST (C10 part B: a fact left behind by a failed
                                 proof is usually not forward-reachable either, and must be reported as (iii))
+
+  Reach-audit extensions (grammar in harness/src/bin/c09.rs): cfg := `<D|B|I|N><depth>s<ms>[m][v<k>]` (`N` = built by
+  `BackwardEngine::new`: DFS, depth 10, max_solutions 1, memo on; `v<k>` = field vocabulary k); a 5th token is a HISTORY of
+  steps on one engine (model: RreModel/C09/Hist.lean). Observation / prediction of a history: one per query, joined by ` / `.
+  Every query of a history is judged by the same oracle clauses against the knowledge base, configuration and facts AS THEY
+  ARE at that query; the completeness clauses (iv), (iv-b) only when the index is fresh (no edit since the last
+  `new` / `with_config` / `rebuild_index`: "call after modifying knowledge base"). A failure carries `@<k>` = the k-th query.
 -/
 open Proto C09
 
@@ -23,6 +31,10 @@ def nFields : Nat := 11
 /-- the key `<object>._return` that a value-returning `MethodCall` writes: only `E` (field 4) has one in the universe -/
 def returnField (f : Nat) : Option Nat := if f = 4 then some 10 else none
 def fieldName (i : Nat) : String := (fieldNames[i]?).getD "?"
+/-- vocabulary 1: names that start with / contain keywords of the query language -/
+def fieldNames1 : List String :=
+  ["NOTICE", "ORDER", "ANDROID", "trueCount", "NOTE", "nullable", "X", "inStock", "NOTIFY.Sent", "NOT.Q", "NOTE._return"]
+def fieldNameV (voc : Nat) (i : Nat) : String := if voc = 1 then (fieldNames1[i]?).getD "?" else fieldName i
 
 /-- `_` in a string word of the case text stands for a blank (`sa_b` = "a b"; `s` = the empty string) -/
 def unBlank (s : String) : String := s.map fun c => if c = '_' then ' ' else c
@@ -132,6 +144,23 @@ def parseFacts (s : String) : Option Facts :=
 def showFacts (l : Facts) : String :=
   if l.isEmpty then "-" else ",".intercalate (l.map fun (k, v) => s!"F{k}={showVal v}")
 
+structure Cfg where
+  strategy : Strategy
+  maxDepth : Nat
+  maxSol : Nat
+  memo : Bool := false
+  viaNew : Bool := false
+  voc : Nat := 0
+
+inductive Step where
+  | query (facts : Facts) (goal : Atom) (neg : Bool) (explain : Bool) (qtok : String)
+  | add (n : Nat) (k : KRule)
+  | remove (n : Nat)
+  | enable (n : Nat) (b : Bool)
+  | clear
+  | rebuild
+  | setConfig (c : Cfg)
+
 structure Case where
   strategy : Strategy
   maxDepth : Nat
@@ -144,28 +173,81 @@ structure Case where
   neg : Bool := false
   /-- every rule of `kb.get_rules()`, with its `enabled` flag -/
   krules : List KRule := []
+  voc : Nat := 0
+  memo : Bool := false
+  viaNew : Bool := false
+  /-- `none`: one query on a fresh engine -/
+  steps : Option (List Step) := none
+  /-- completeness clauses apply (history: the index is fresh) -/
+  fresh : Bool := true
 
 /-- `*<rule>` = the rule is added disabled -/
 def parseKRule (s : String) : Option KRule :=
   if s.startsWith "*" then (parseRule (s.drop 1).toString).map (⟨·, false⟩) else (parseRule s).map (⟨·, true⟩)
 
-def parseCfg (s : String) : Option (Strategy × Nat × Nat) := do
-  let st ← if s.startsWith "D" then some Strategy.dfs else if s.startsWith "B" then some .bfs
-           else if s.startsWith "I" then some .iterative else none
-  match (s.drop 1).toString.splitOn "s" with
-  | [d, m] => pure (st, ← d.toNat?, ← m.toNat?)
+def parseCfg (s : String) : Option Cfg := do
+  let (st, viaNew) ← if s.startsWith "D" then some (Strategy.dfs, false) else if s.startsWith "B" then some (.bfs, false)
+           else if s.startsWith "I" then some (.iterative, false) else if s.startsWith "N" then some (.dfs, true) else none
+  let rest := (s.drop 1).toString
+  let (rest, voc) ← match rest.splitOn "v" with
+    | [r] => some (r, 0)
+    | [r, v] => v.toNat?.bind fun k => if k < 2 then some (r, k) else none
+    | _ => none
+  let (rest, memo) := if rest.endsWith "m" then ((rest.dropEnd 1).toString, true) else (rest, false)
+  match rest.splitOn "s" with
+  | [d, m] =>
+    let c : Cfg := ⟨st, ← d.toNat?, ← m.toNat?, memo || viaNew, viaNew, voc⟩
+    if viaNew && (c.maxDepth != 10 || c.maxSol != 1) then none else pure c
   | _ => none
+
+def parseQuery (q : String) : Option (Atom × Bool) := do
+  let neg := q.startsWith "!"
+  let q := if neg then (q.drop 1).toString else q
+  -- the query travels as a string (`F == 1`): an Integer literal in the case text means the
+  -- Number the query parser produces
+  pure (reparse (← parseAtom q), neg)
+
+def parseStep (facts : Facts) (q : String) (s : String) : Option Step :=
+  if s = "?" then do
+    let (g, neg) ← parseQuery q
+    pure (.query facts g neg false q)
+  else if s = "w" then do
+    let (g, neg) ← parseQuery q
+    pure (.query facts g neg true q)
+  else if s.startsWith "?" then
+    match (s.drop 1).toString.splitOn "?" with
+    | [f, q2] => do
+      let (g, neg) ← parseQuery q2
+      pure (.query (← parseFacts f) g neg false q2)
+    | _ => none
+  else if s.startsWith "+" then
+    let body := (s.drop 1).toString
+    match body.splitOn ":" with
+    | i :: r :: more => do pure (.add (← i.toNat?) (← parseKRule (":".intercalate (r :: more))))
+    | _ => none
+  else if s.startsWith "-" then (s.drop 1).toString.toNat?.map .remove
+  else if s.startsWith "e" then (s.drop 1).toString.toNat?.map (.enable · true)
+  else if s.startsWith "d" then (s.drop 1).toString.toNat?.map (.enable · false)
+  else if s = "z" then some .clear
+  else if s = "x" then some .rebuild
+  else if s.startsWith "c" then do
+    let c ← parseCfg (s.drop 1).toString
+    if c.viaNew || c.voc != 0 then none else pure (.setConfig c)
+  else none
 
 def parseCase (line : String) : Option Case :=
   match tokens line with
-  | [cfg, f, q, r] => do
-    let (st, d, m) ← parseCfg cfg
+  | cfg :: f :: q :: r :: rest => do
+    let c ← parseCfg cfg
     let ks ← if r = "-" then some [] else (r.splitOn ";").mapM parseKRule
-    let neg := q.startsWith "!"
-    let q := if neg then (q.drop 1).toString else q
-    -- the query travels as a string (`F == 1`): an Integer literal in the case text means the
-    -- Number the query parser produces
-    pure ⟨st, d, m, ← parseFacts f, reparse (← parseAtom q), enabledRules ks, neg, ks⟩
+    let (g, neg) ← parseQuery q
+    let facts ← parseFacts f
+    let steps ← match rest with
+      | [] => some none
+      | [h] => if h = "-" then some (some []) else ((h.splitOn "@").mapM (parseStep facts q)).map some
+      | _ => none
+    pure { strategy := c.strategy, maxDepth := c.maxDepth, maxSol := c.maxSol, facts := facts, goal := g, kb := enabledRules ks,
+           neg := neg, krules := ks, voc := c.voc, memo := c.memo, viaNew := c.viaNew, steps := steps }
   | _ => none
 
 /-! ### candidate lists: computed by the model (`RreModel/C09/Candidates.lean`; `C09.topCandidates_covers`,
@@ -173,6 +255,7 @@ def parseCase (line : String) : Option Case :=
 
 /-- the text of the tie (harness/src/bin/c09.rs): field `i` is `FIELDS[i]`, rule `i` is named `R<i>` -/
 def tieNames : Naming := ⟨fieldName, ruleNameR⟩
+def tieNamesV (voc : Nat) : Naming := ⟨fieldNameV voc, ruleNameR⟩
 
 /-- `rule_could_prove_pattern` over `kb.get_rules()` (insertion order: equal salience) -/
 def subCandsOf (kb : List Rule) (a : Atom) : List Nat := subCandidates tieNames kb a
@@ -201,10 +284,82 @@ def factsOfData (d : Data) : Facts :=
 def showOut (o : QueryOut) : String :=
   s!"{if o.provable then 1 else 0} {showFacts (factsOfData o.store.data)} {o.store.frames.length} {o.nsol}"
 
+def showOutX (explain : Bool) (o : QueryOut) : String :=
+  if explain then s!"{if o.provable then 1 else 0} {showFacts (factsOfData o.store.data)} {o.store.frames.length} -"
+  else showOut o
+
+/-- one query on the engine state `e` (RreModel/C09/Hist.lean): the admissible observations with their verdicts, or `none`
+when the index proposes more than 4 candidates (too many orders) -/
+def queryOuts (nm : Naming) (e : Eng) (cfg : Cfg) (facts : Facts) (goal : Atom) (neg explain : Bool) :
+    Option (List (String × Bool)) :=
+  let ks := e.krules
+  let kb := enabledRules ks
+  let live := crulesN nm e.kb.rules
+  let pat := (if neg then "NOT " else "") ++ patternOf nm goal
+  let top := topCandsHist nm e pat
+  let cands := top.1.map (remap ks)
+  let sub := fun a => (subCandsPat live (patternOf nm a)).map (remap ks)
+  if top.2 && cands.length > 4 then none
+  else
+    let orders := if top.2 then perms cands else [cands]
+    let outs := orders.map fun order =>
+      let o := if neg then queryNegFast kb cfg.strategy cfg.maxDepth cfg.maxSol sub goal order (storeOf facts)
+               else queryFast kb cfg.strategy cfg.maxDepth cfg.maxSol sub goal order (storeOf facts)
+      (showOutX explain o, o.provable)
+    some outs.eraseDups
+
+/-- memo cache of the model: key = (query text, facts, max_solutions, kb version) ↦ the verdicts it may hold -/
+abbrev Memo := List ((String × String × Nat × Nat) × List Bool)
+
+structure HState where
+  eng : Eng
+  cfg : Cfg
+  memo : Memo := []
+
+def namedRules (ks : List KRule) : List NRule := (List.range ks.length).zip ks |>.map fun p => ⟨p.1, p.2⟩
+
+def hInit (nm : Naming) (c : Case) : HState :=
+  ⟨engNew nm (namedRules c.krules), ⟨c.strategy, c.maxDepth, c.maxSol, c.memo, c.viaNew, c.voc⟩, []⟩
+
+/-- a step that is not a query -/
+def hEdit (nm : Naming) (h : HState) : Step → HState
+  | .add n k => { h with eng := engStep nm h.eng (.kb (.add n k)) }
+  | .remove n => { h with eng := engStep nm h.eng (.kb (.remove n)) }
+  | .enable n b => { h with eng := engStep nm h.eng (.kb (.enable n b)) }
+  | .clear => { h with eng := engStep nm h.eng (.kb .clear) }
+  -- fix F-C09g: `rebuild_index` empties the memo cache; `set_config` replaces the GoalManager
+  | .rebuild => { h with eng := engStep nm h.eng .rebuild, memo := [] }
+  | .setConfig c => { h with eng := engStep nm h.eng .setConfig, cfg := c, memo := [] }
+  | .query .. => h
+
+def memoKey (h : HState) (facts : Facts) (qtok : String) : String × String × Nat × Nat :=
+  (qtok, showFacts facts, h.cfg.maxSol, h.eng.kb.version)
+
+def modelHistory (nm : Naming) (c : Case) (steps : List Step) : String :=
+  let r := steps.foldl (init := (hInit nm c, ([] : List String))) fun (h, outs) st =>
+    match st with
+    | .query facts goal neg explain qtok =>
+      let key := memoKey h facts qtok
+      match (if h.cfg.memo then h.memo.lookup key else none) with
+      | some vs =>
+        -- answered from the cache: the verdict, the facts untouched, no solutions
+        let os := vs.map fun v => s!"{if v then 1 else 0} {showFacts facts} 0 {if explain then "-" else "0"}"
+        (h, outs ++ [" || ".intercalate os])
+      | none =>
+        match queryOuts nm h.eng h.cfg facts goal neg explain with
+        | none => (h, outs ++ ["many-orders"])   -- (the cache may then hold either verdict: not tracked)
+        | some os =>
+          let h' := if h.cfg.memo then { h with memo := (key, (os.map (·.2)).eraseDups) :: h.memo } else h
+          (h', outs ++ [" || ".intercalate (os.map (·.1))])
+    | _ => (hEdit nm h st, outs)
+  if r.2.isEmpty then "-" else " / ".intercalate r.2
+
 def modelLine (line : String) : String :=
   match parseCase line with
   | some c =>
-    if !c.neg && c.krules.all (·.enabled) then
+    if let some steps := c.steps then modelHistory (tieNamesV c.voc) c steps
+    else if c.voc != 0 then modelHistory (tieNamesV c.voc) c [.query c.facts c.goal c.neg false ""]
+    else if !c.neg && c.krules.all (·.enabled) then
       let cands := topCandSet c.kb c.goal
       if cands.length > 4 then "many-orders"
       else
@@ -240,15 +395,16 @@ def actTags (kb : List Rule) : List String :=
   ++ (if all.any (fun | .call _ _ => true | .get _ _ => true | _ => false) then ["act_call"] else [])
   ++ (if kb.any (fun r => r.acts.length + r.more.length > 1) then ["multi_action_rule"] else [])
 
-def oracleLine (iiiFirst : Bool) (line : String) : String :=
-  match line.splitOn " | " with
-  | [cs, o] =>
+/-- the oracle clauses on ONE query: `c` holds the rules, configuration, facts and goal as they are at that query;
+`hit` = the query was asked before on this engine state with memoisation on (answered from the cache) -/
+def oracleCore (iiiFirst : Bool) (c : Case) (hit : Bool) (o : String) : String :=
     if o.trimAscii.toString.startsWith "panic" then "fail query-panic" else
-    match parseCase cs, tokens o with
-    | some c, [p, fa, d, ns] =>
-      match parseFacts fa, d.toNat?, ns.toNat? with
+    match tokens o with
+    | [p, fa, d, ns] =>
+      match parseFacts fa, d.toNat?, (if ns = "-" then some 0 else ns.toNat?) with
       | some after, some depth, some _ =>
         if p = "err" then "fail query-error"
+        else if p != "1" && p != "0" then "bad-input"
         else
           let provable := p = "1"
           let before := c.facts
@@ -256,13 +412,14 @@ def oracleLine (iiiFirst : Bool) (line : String) : String :=
           if iiiFirst && depth != 0 then "fail leaked-frames"
           else if iiiFirst && !restored before after depth provable then "fail not-restored"
           else if !c.neg && provable && !goalHolds c.goal after then
-            s!"fail goal-false-after ms{if c.maxSol > 1 then "N" else "1"} {if before == after then "rolled-back" else "changed"}"
+            if hit then "fail memo-hit-not-derived"
+            else s!"fail goal-false-after ms{if c.maxSol > 1 then "N" else "1"} {if before == after then "rolled-back" else "changed"}"
           else if reach == some false then "fail not-reachable"
           else if depth != 0 then "fail leaked-frames"
           else if !restored before after depth provable then "fail not-restored"
-          else if !c.neg && c.strategy == .dfs && !complete c.kb before c.maxDepth c.goal provable then
+          else if c.fresh && !c.neg && c.strategy == .dfs && !complete c.kb before c.maxDepth c.goal provable then
             s!"fail incomplete ms{if c.maxSol > 1 then "N" else "1"} {if hasIntLiteral c.kb then "int-literal" else "plain"}"
-          else if !c.neg && c.strategy == .dfs && !completeInconsistent nFields c.kb before c.maxDepth c.goal provable then
+          else if c.fresh && !c.neg && c.strategy == .dfs && !completeInconsistent nFields c.kb before c.maxDepth c.goal provable then
             "fail incomplete-interference"
           else
             let d0 := dataOf before
@@ -274,13 +431,15 @@ def oracleLine (iiiFirst : Bool) (line : String) : String :=
                          if c.maxSol > 1 then "msN" else "ms1", s!"rules{c.kb.length}"]
               ++ (if horn then ["horn"] else ["general"])
               ++ (match lvl with | some k => [s!"level{k}"] | none => if horn then ["underivable"] else [])
-              ++ (if !c.neg && horn && derivableIn c.kb d0 c.maxDepth c.goal && c.strategy == .dfs then ["complete_clause_applied"] else [])
-              ++ (if !c.neg && c.strategy == .dfs && interferenceClause nFields c.kb before c.maxDepth c.goal then ["interference_clause_applied"] else [])
+              ++ (if c.fresh && !c.neg && horn && derivableIn c.kb d0 c.maxDepth c.goal && c.strategy == .dfs then ["complete_clause_applied"] else [])
+              ++ (if c.fresh && !c.neg && c.strategy == .dfs && interferenceClause nFields c.kb before c.maxDepth c.goal then ["interference_clause_applied"] else [])
               ++ (if c.neg then ["negated"] else [])
               -- a negated DFS query that is not provable although its positive form is false in the initial facts: a proof of
               -- the positive form was found and discarded
               ++ (if c.neg && !provable && c.strategy == .dfs && !goalHolds c.goal before then ["neg_found_then_discarded"] else [])
               ++ (if c.krules.any (!·.enabled) then ["disabled_rules"] else [])
+              ++ (if c.voc != 0 then ["keyword_names"] else [])
+              ++ (if c.viaNew then ["engine_new"] else [])
               ++ (if reach == none then ["reach_fuel_out"] else [])
               ++ (if before != after then ["derived_facts"] else [])
               ++ (if rsz > 1 then ["rules_fireable"] else [])
@@ -289,7 +448,52 @@ def oracleLine (iiiFirst : Bool) (line : String) : String :=
               ++ (if (provable && before != after) || (!provable && rsz > 1) then ["nontrivial"] else [])
             joinSp ("ok" :: tags)
       | _, _, _ => "bad-input"
-    | _, _ => "bad-input"
+    | _ => "bad-input"
+
+/-- a history: every query judged against the engine state at that moment; the first failing clause is reported with
+`@<k>`; tags = union over the queries + what the history did -/
+def oracleHistory (iiiFirst : Bool) (c : Case) (steps : List Step) (obs : String) : String :=
+  let nm := tieNamesV c.voc
+  let os := if obs.trimAscii.toString = "-" then [] else obs.splitOn " / "
+  let nq := (steps.filter fun | .query .. => true | _ => false).length
+  if os.any (fun o => o.trimAscii.toString = "cfg-mismatch") then "fail cfg-mismatch"
+  else if os.length != nq then
+    (if os.any (fun o => o.trimAscii.toString.startsWith "panic") then "fail query-panic" else "bad-input")
+  else
+    let init : HState × List String × List String × Option String × Nat × List (String × String × Nat × Nat) :=
+      (hInit nm c, os, [], none, 0, [])
+    let r := steps.foldl (init := init) fun (h, os, tags, bad, k, seen) st =>
+      match st, os with
+      | .query facts goal neg _ qtok, o :: rest =>
+        let fresh := indexFresh nm h.eng
+        let ks := h.eng.krules
+        let qc : Case := { strategy := h.cfg.strategy, maxDepth := h.cfg.maxDepth, maxSol := h.cfg.maxSol, facts := facts, goal := goal,
+                           kb := enabledRules ks, neg := neg, krules := ks, voc := c.voc, memo := h.cfg.memo,
+                           viaNew := h.cfg.viaNew, fresh := fresh }
+        let key := memoKey h facts qtok
+        let hit := h.cfg.memo && seen.contains key
+        let res := oracleCore iiiFirst qc hit o
+        let bad' := match bad with
+          | some b => some b
+          | none => if res.startsWith "ok" then none else some s!"{res} @{k + 1}"
+        let tags' := (tags ++ (tokens res).drop 1 ++ (if fresh then [] else ["stale_index_query"]) ++ (if hit then ["memo_hit"] else [])).eraseDups
+        (h, rest, tags', bad', k + 1, if h.cfg.memo then key :: seen else seen)
+      | .rebuild, _ => (hEdit nm h st, os, (tags ++ ["rebuild_index"]).eraseDups, bad, k, [])
+      | .setConfig _, _ => (hEdit nm h st, os, (tags ++ ["set_config"]).eraseDups, bad, k, [])
+      | _, _ => (hEdit nm h st, os, (tags ++ ["kb_edit"]).eraseDups, bad, k, seen)
+    match r.2.2.2.1 with
+    | some b => b
+    | none => joinSp ("ok" :: "history" :: r.2.2.1)
+
+def oracleLine (iiiFirst : Bool) (line : String) : String :=
+  match line.splitOn " | " with
+  | [cs, o] =>
+    match parseCase cs with
+    | some c =>
+      match c.steps with
+      | some steps => oracleHistory iiiFirst c steps o
+      | none => oracleCore iiiFirst c false o
+    | none => "bad-input"
   | _ => "bad-input"
 
 def main (args : List String) : IO Unit :=
